@@ -301,7 +301,7 @@ def family(tier):
     items = []
     base = list(F.undirected([1, 2, 3], 3)) + list(F.undirected([1, 2, 3, 4], 2, min_edges=1))
     if not q:
-        base = list(F.undirected([1, 2, 3, 4], 3)) + list(F.undirected([1, 2, 3, 4, 5], 2, min_edges=2))
+        base = list(F.undirected([1, 2, 3, 4], 3)) + list(F.undirected([1, 2, 3, 4, 5], 2, min_edges=2)) + [s for s in F.undirected([1, 2, 3, 4, 5], 3, isolated=False, min_edges=3) if 5 in s["nodes"]]
     for s in base:
         for mode in (0, 1, 2):
             items.append(("H", decorate(s, mode)))
